@@ -128,6 +128,21 @@ func runC01(c *Ctx) {
 				c.Bad("C01.wire", fnName(rc), "manager.Config.Update", P.Pos(rc.Pos()), "not a function literal")
 			} else {
 				uf := updClosure.Fn.(*ssa.Function)
+				bound := false
+				if strings.HasSuffix(uf.Name(), "$bound") {
+					// Update: c.update — analyse the method the wrapper forwards to
+					for _, ci := range callsIn(uf) {
+						if m := staticCallee(ci.Common()); m != nil && len(m.Blocks) > 0 {
+							uf, bound = m, true
+						}
+					}
+				}
+				np := len(uf.Params)
+				if np < 2 {
+					c.Bad("C01.wire", fnName(uf), "manager.Config.Update", P.Pos(uf.Pos()), "unexpected signature")
+					return
+				}
+				pTarget, pNoti := ssa.Value(uf.Params[np-2]), ssa.Value(uf.Params[np-1])
 				c.Analysed(fnName(uf))
 				gu := P.Method("cache", "Cache", "GnmiUpdate")
 				okGU := false
@@ -151,7 +166,11 @@ func runC01(c *Ctx) {
 					e := &PPA{Cond: at.Cond, Watch: func(ev *Ev) bool {
 						return ev.Label == "call:"+fnName(gu) || ev.Field == fPrefix && strings.HasPrefix(ev.Label, "store:") || ev.Field == fTarget && strings.HasPrefix(ev.Label, "store:")
 					}}
-					e.RunClosure(updClosure)
+					if bound {
+						e.Run(uf)
+					} else {
+						e.RunClosure(updClosure)
+					}
 					c.Paths += len(e.Paths)
 					c.Scen++
 					n := 0
@@ -166,12 +185,12 @@ func runC01(c *Ctx) {
 						stamped := false
 						for j := 0; j < gi; j++ {
 							ev := &p.Trace[j]
-							if ev.Field == fTarget && ev.Args[1].V == ssa.Value(uf.Params[0]) {
+							if ev.Field == fTarget && ev.Args[1].V == pTarget {
 								stamped = true
 							}
 						}
 						newPfx := p.Index(0, func(ev *Ev) bool { return ev.Field == fPrefix }) >= 0
-						ok := stamped && (newPfx == pnil) && p.Trace[gi].Args[1].V == ssa.Value(uf.Params[1])
+						ok := stamped && (newPfx == pnil) && p.Trace[gi].Args[1].V == pNoti
 						c.Check(ok, "C01.stamp", fnName(uf), fmt.Sprintf("prefix nil=%v: target stamped before GnmiUpdate", pnil), P.Pos(uf.Pos()), fmt.Sprintf("target stored from the closure's parameter=%v new prefix installed=%v; path: %s", stamped, newPfx, p.String()))
 					}
 					c.Floor(fmt.Sprintf("C01.stamp/paths(prefix nil=%v)", pnil), n, 1)
@@ -320,11 +339,31 @@ func runC01(c *Ctx) {
 				}
 			})
 			nHandler := 0
+			callsHandler := func(g *ssa.Function) bool {
+				found := false
+				for _, h := range withAnon(g) {
+					for _, ci := range callsIn(h) {
+						if u, ok := ci.Common().Value.(*ssa.UnOp); ok && !ci.Common().IsInvoke() {
+							if fl := fieldOf(u.X); fl != nil && fl.Name() == "handler" {
+								found = true
+							}
+						}
+					}
+				}
+				return found
+			}
 			for _, ci := range callsIn(f) {
+				if !inLoopWithout(ci.Block(), nil) {
+					continue
+				}
 				if u, ok := ci.Common().Value.(*ssa.UnOp); ok && !ci.Common().IsInvoke() {
-					if fl := fieldOf(u.X); fl != nil && fl.Name() == "handler" && inLoopWithout(ci.Block(), nil) {
+					if fl := fieldOf(u.X); fl != nil && fl.Name() == "handler" {
 						nHandler++
 					}
+				}
+				// a same-package helper that relays to the handler
+				if cal := staticCallee(ci.Common()); cal != nil && cal.Pkg == f.Pkg && callsHandler(cal) {
+					nHandler++
 				}
 			}
 			c.Check(ranged[fU] && ranged[fD] && nHandler >= 2, "C01.arms", fnName(f), "update arm forwards every update and every delete", P.Pos(f.Pos()), fmt.Sprintf("ranges Update=%v Delete=%v, handler calls inside loops=%d", ranged[fU], ranged[fD], nHandler))
